@@ -460,14 +460,15 @@ def _run(ctx, ex):
     ctx.notes.append(
         "dimension LATENESS of stragglers (how long after the deadline a clock that ignores its context returns: 3 / 5 / "
         "90 / 7200 / 259200 / 3000000 units = just after, seconds, minutes, hours, days, weeks of virtual time; Tick "
-        "jumps to the next return as synctest does): TLC decided every clause incl. NoLeak for every history of %s (%d "
-        "distinct states, behaviours last until the last straggler has returned); TLC generated %d histories with a "
+        "jumps to the next return as synctest does): TLC decided every clause incl. NoLeak for every history of %s (2 rounds, <= 2 clocks, "
+        "completion times 1, %s or never; %d distinct states, behaviours last until the last straggler has returned); TLC generated %d histories with a "
         "straggler minutes / %d hours / %d days / %d weeks late, %d with one and %d with several such stragglers (%d "
         "with several in one round, %d in several rounds, %d of different lateness, %d with further rounds after the "
         "straggler's), and %d large rounds with several (%d of different lateness); replayed: %d rounds with such "
         "stragglers on the real code (minutes %d, hours %d, days %d, weeks %d), %d of them judged after every "
         "measurement call had returned"
-        % (rl["cfg"], rl["distinct"], gen["histories_with_a_straggler_minutes_late"],
+        % (rl["cfg"], "90, 259200" if q else "3, 90, 7200, 259200, 3000000", rl["distinct"],
+           gen["histories_with_a_straggler_minutes_late"],
            gen["histories_with_a_straggler_hours_late"], gen["histories_with_a_straggler_days_late"],
            gen["histories_with_a_straggler_weeks_late"], gen["histories_with_one_far_straggler"],
            gen["histories_with_several_far_stragglers"], gen["histories_with_several_far_stragglers_in_one_round"],
@@ -500,7 +501,7 @@ def _run(ctx, ex):
         "goroutine of the bubble is durably blocked)",
         "small scope for the exhaustive part: <= 3 (quick) / <= 4 (thorough) reference clocks in single rounds; histories "
         "of 2 rounds with <= 2 clocks (and 3 rounds in the thorough tier); completion times abstracted to "
-        "before/at/after the deadline/long after/late by minutes, hours, days (weeks: thorough)/never; the next round starts 0 or 1 units after the previous return",
+        "before/at/after the deadline/long after/late by minutes or days (quick; hours and weeks too: thorough and the sampled histories)/never; the next round starts 0 or 1 units after the previous return",
         "rounds with 5..64 clocks and histories of 3 rounds with <= 3 clocks are sampled (TLC -simulate), not enumerated",
         "scripted clocks return by 3000000 units (five weeks of virtual time) or at ctx.Done; a history is observed "
         "until its last straggler has returned plus 20 units; the caller cancels after return as sync.measureOffsetToRefClks does",
